@@ -11,7 +11,7 @@ from .ctx import Ctx, Infeasible, PathEnd, RLIMIT_QUICK
 from .interp import Brk, Cont, Env, Interp, PyRaise, Ret
 from .values import Kind, PyDict, PyList, Unsupported
 
-MAX_PATHS = 20000
+MAX_PATHS = 100000
 _WORKER_RUN = None
 
 
@@ -186,7 +186,8 @@ class FunctionRun:
                 raise Infeasible()
             env.old = interp.snapshot_env(env)
             penv.old = env.old
-            entry = {k: v for k, v in env.vars.items() if not hasattr(v, "__dict__") or isinstance(v, ops.Sym)}
+            from .values import SObj, SList, SDict, Opaque
+            entry = {k: v for k, v in env.vars.items() if not isinstance(v, (SObj, SList, SDict, PyList, PyDict, Opaque))}
             outcome, val = "return", None
             try:
                 interp.exec_block(fnode.body, env)
@@ -200,17 +201,17 @@ class FunctionRun:
             penv2 = Env(mod, env, c.qualname, c.cls)
             penv2.vars.update(entry)
             penv2.old = env.old
-            self.finish(interp, penv2, outcome, val)
-            self.completed_paths += 1
+            self.completed_paths += 1  # the function reached an exit on this path
             if len(self.sample_paths) < 3:
                 self.sample_paths.append(",".join(ctx.notes[:10]))
+            self.finish(interp, penv2, outcome, val)
         except (Infeasible, PathEnd):
             pass
 
     def finish(self, interp, env, outcome, val):
         c = self.contract
         ctx = interp.ctx
-        q = c.qualname
+        q = c.qualname + ("[%s]" % c.variant if c.variant else "")
         env.extra["yields"] = PyList(ctx.yields)
         if self.canary_ok is None and not ctx.replaying:
             # vacuity guard: `False` must NOT be provable at a reachable exit
@@ -220,7 +221,13 @@ class FunctionRun:
             env.extra["result"] = val
             ctx.cover(q + "/return")
             for nm, s in c.ensures.items():
-                ctx.check("%s/post.%s" % (q, nm), ops.truth(interp.spec(s, env)), detail=s)
+                try:
+                    goal = ops.truth(interp.spec(s, env))
+                except PyRaise as pr:
+                    # the postcondition is not even evaluable in this final state (e.g. a key is missing)
+                    ctx.check("%s/post.%s" % (q, nm), False, detail="%s  -- not evaluable: %s" % (s, pr.exc.cls.name))
+                    continue
+                ctx.check("%s/post.%s" % (q, nm), goal, detail=s)
         else:
             ename = val.cls.name
             self.outcomes[ename] = self.outcomes.get(ename, 0) + 1
@@ -236,7 +243,12 @@ class FunctionRun:
             ctx.cover(q + "/raise." + match)
             env.extra["exc"] = val
             for nm, s in c.exsures[match].items():
-                ctx.check("%s/raise.%s.%s" % (q, match, nm), ops.truth(interp.spec(s, env)), detail=s)
+                try:
+                    goal = ops.truth(interp.spec(s, env))
+                except PyRaise as pr:
+                    ctx.check("%s/raise.%s.%s" % (q, match, nm), False, detail="%s  -- not evaluable: %s" % (s, pr.exc.cls.name))
+                    continue
+                ctx.check("%s/raise.%s.%s" % (q, match, nm), goal, detail=s)
 
     # ------------------------------------------------------------------------------
     def summary(self):
